@@ -56,6 +56,7 @@ type Stats struct {
 	ChanOps    int
 	MapRanges  int
 	LoopYields int
+	Makes      int
 	Rewritten  []string
 }
 
@@ -190,6 +191,20 @@ func (c *fileCtx) isChan(e ast.Expr) bool {
 	}
 	_, ok := t.Underlying().(*types.Chan)
 	return ok
+}
+
+func (c *fileCtx) isSlice(e ast.Expr) bool {
+	tv, ok := c.info.Types[e]
+	if !ok || !tv.IsType() || tv.Type == nil {
+		return false
+	}
+	_, ok = tv.Type.Underlying().(*types.Slice)
+	return ok
+}
+
+func (c *fileCtx) isConst(e ast.Expr) bool {
+	tv, ok := c.info.Types[e]
+	return ok && tv.Value != nil
 }
 
 func (c *fileCtx) fail(n ast.Node, format string, args ...any) {
@@ -372,6 +387,16 @@ func (c *fileCtx) rewriteFile(f *ast.File) {
 						c.mark(true)
 					} else if c.isChan(n.Args[0]) {
 						c.fail(n, "make of a named channel type: not supported by the rewriter")
+					} else if c.isSlice(n.Args[0]) && len(n.Args) >= 2 && !c.isConst(n.Args[1]) {
+						// dynamic allocation sizes go through the simulator's
+						// allocator seam (a giant allocation = party crash)
+						repl := &ast.CallExpr{Fun: &ast.IndexExpr{X: rtSel("MakeSlice"), Index: n.Args[0]}}
+						for _, a := range n.Args[1:] {
+							repl.Args = append(repl.Args, &ast.CallExpr{Fun: ast.NewIdent("int"), Args: []ast.Expr{a}})
+						}
+						cur.Replace(repl)
+						c.mark(true)
+						c.st.Makes++
 					}
 				}
 			case "close":
